@@ -10,6 +10,7 @@ import numpy as np
 
 from engines import chainoracle as orc
 from engines import chainsim
+from models import zoo
 from simkit.core import digest, rng_for, violation
 
 PROP = "C17"
@@ -43,6 +44,14 @@ def scenarios(tier, seed):
         scn = chainsim.random_scenario(rng)
         if scn["sampler"] == "generic":
             scn = chainsim.random_scenario(rng_for(seed, PROP, i, "b"))
+        if scn["sampler"] != "generic" and i % 3 == 0:
+            # constrained systems with metric adapters: the refreshed momenta must lie in the cotangent
+            # space of the *new* metric (state caches hold quantities computed under the old one)
+            spec = zoo.random_system_spec(rng, kinds=("con", "gcon"), dims=(3,))
+            scn["system"] = spec
+            scn["integrator"] = zoo.random_integrator_spec(rng, spec["kind"], step_size=rng.choice([0.05, 0.2]))
+            if scn["sampler"] in ("multinomial", "slice"):
+                scn["sampler_kwargs"]["max_tree_depth"] = min(2, scn["sampler_kwargs"]["max_tree_depth"])
         if scn["sampler"] != "generic":
             metric_ok = scn["system"]["kind"] in ("euclid", "gauss", "con", "gcon")
             red = rng.choice(["arith", "geom", "min"])
